@@ -333,10 +333,10 @@ func TestSubmission(t *testing.T) {
 		gens = append(gens, g)
 	}
 
-	getRoots := func() map[string]any {
+	getRoots := func(g int) map[string]any {
 		rr := httptest.NewRecorder()
 		handler.ServeHTTP(rr, httptest.NewRequest("GET", "/ct/v1/get-roots", nil))
-		rec := map[string]any{"ev": "GetRoots", "status": rr.Code}
+		rec := map[string]any{"ev": "GetRoots", "gen": g, "status": rr.Code}
 		names := []string{}
 		var body struct {
 			Certificates [][]byte `json:"certificates"`
@@ -375,7 +375,7 @@ func TestSubmission(t *testing.T) {
 				trace = append(trace, rec)
 			}
 			reload("new set", certs.PEM(cas...))
-			trace = append(trace, getRoots())
+			trace = append(trace, getRoots(g))
 			// redundant reloads: the same bytes again (a no-op in the code), then
 			// the same set as a different bundle (reversed, one certificate twice)
 			reload("same bytes", certs.PEM(cas...))
@@ -393,7 +393,7 @@ func TestSubmission(t *testing.T) {
 		} else {
 			fail("plan has generation %d", g)
 		}
-		trace = append(trace, getRoots())
+		trace = append(trace, getRoots(g))
 
 		// ---- mint (sequentially: the concrete choices depend only on the seed
 		// and the plan), then submit concurrently while a sequencer runs
